@@ -531,10 +531,6 @@ V("c09-unify-pin-not-cached", "C09", "R09.7", "dask_array/_blockwise.py",
   "    @cached_property\n    def _unify_config(self):", "    @property\n    def _unify_config(self):", expect="array.unify-chunks")
 V("c09-chunks-unifies-live", "C09", "R09.7", "dask_array/_blockwise.py",
   "            chunkss, arrays, _ = self._unified_args()\n", "            chunkss, arrays, _ = unify_chunks_expr(*self.args)\n", expect="array.unify-chunks")
-V("c09-twin-pin-renamed", "C09", "-", "dask_array/_blockwise.py", None, None, twin=True, edits=[
-  ("dask_array/_blockwise.py", "    def _unify_config(self):", "    def _planned_under(self):"),
-  ("dask_array/_blockwise.py", "        with config.set(self._unify_config):", "        with config.set(self._planned_under):"),
-])
 
 V("c17-twin-unify-inlined", "C17", "-", "dask_array/_blockwise.py",
   "    def _lower(self):\n        if self.align_arrays:\n            _, arrays, changed = self._unified_args()\n            if changed:\n                args = []",
@@ -685,3 +681,8 @@ V("c16-twin-rename", "C16", "-", "dask_array/_core_utils.py", None, None, twin=T
   ("dask_array/_core_utils.py", "            parsed = parse_bytes(c)\n            if parsed < 0:", "            nbytes = parse_bytes(c)\n            if nbytes < 0:"),
   ("dask_array/_core_utils.py", "            if limit is None:\n                limit = parsed\n            elif parsed != limit:\n                raise ValueError(f\"Only one consistent value of limit or chunk is allowed. Used {parsed} != {limit}\")", "            if limit is None:\n                limit = nbytes\n            elif nbytes != limit:\n                raise ValueError(f\"Only one consistent value of limit or chunk is allowed. Used {nbytes} != {limit}\")"),
 ])
+
+V("c02-detector-uses-forward-permutation", "C02", "R02.6", "dask_array/_blockwise.py",
+  "        inv = expr._inverse_axes\n        dep_mapping = tuple(parent_mapping[inv[i]] for i in range(len(inv)))", "        dep_mapping = tuple(parent_mapping[ax] for ax in expr.axes)", expect="_symbolic_mapping")
+V("c02-twin-detector-local-rename", "C02", "-", "dask_array/_blockwise.py",
+  "        inv = expr._inverse_axes\n        dep_mapping = tuple(parent_mapping[inv[i]] for i in range(len(inv)))", "        inverse = expr._inverse_axes\n        dep_mapping = tuple(parent_mapping[j] for j in inverse)", twin=True)
